@@ -64,9 +64,10 @@ WFCase(c) ==
                     /\ (i = Len(c) \/ c[i + 1].d <= c[GoRoot(c, i)].d)
        /\ NeverExits(c, i) => c[i].x = "ok"                       \* canonical form: the exit is never taken
        /\ c[i].s = "defer" => ~c[i].b /\ \A j \in Subtree(c, i) : c[j].s # "go"
-       \* an error leaving a program goroutine stops the context that launched it at an
-       \* arbitrary point (GoRoutine sets parentCtx.running): only as the last thing of a case
-       /\ (c[i].s = "go" /\ c[i].x = "error") => Subtree(c, i) = (i + 1)..Len(c)
+       \* an error or an unrecovered panic leaving a program goroutine stops the context that
+       \* launched it at an arbitrary point (GoRoutine: parentCtx.goErr, running = false):
+       \* only as the last thing of a case
+       /\ (c[i].s = "go" /\ c[i].x # "ok") => Subtree(c, i) = (i + 1)..Len(c)
 
 Cases == UNION {{c \in {<<m>> \o t : m \in MainUnit, t \in [1..n -> Unit]} : WFCase(c)} : n \in 0..MaxUnits}
 
